@@ -23,6 +23,7 @@ if ! go build -modfile="$BIN/go.mod" $RACE -tags "$TAGS" -o "$BIN/vcheck" ./cmd/
   echo "INCONCLUSIVE property=$ID reason=harness does not build against the current /repo tree"
   exit 2
 fi
+export VERIF_MODFILE="$BIN/go.mod"
 cd "$VERIF_DIR"
 "$BIN/vcheck" "$ID" --tier "$TIER" "$@"
 exit $?
